@@ -1,5 +1,9 @@
 ---------------------------- MODULE WindowConc_MC ----------------------------
 EXTENDS WindowConc
+CONSTANTS K1, K2, K3, K4                \* the statistic process 1..4 records into / reads (cfg files cannot hold functions)
 MCAmt == [p \in Writers |-> p]          \* writer p records amount p (distinguishable)
-view == <<start, cnt, lock, now, seq, ops, pend, pc, ts, bs, idx, rts, rbs, ridx, si, incl, sum>>
+KOf(p) == CASE p = 1 -> K1 [] p = 2 -> K2 [] p = 3 -> K3 [] OTHER -> K4
+MCWKind == [p \in Writers |-> KOf(p)]
+MCRKind == [p \in Readers |-> KOf(p)]
+view == <<start, cnt, mn, mx, lock, now, seq, ops, pend, pc, ts, bs, idx, rts, rbs, ridx, si, incl, sum>>
 =============================================================================
